@@ -43,5 +43,19 @@ def make(lsp: _t.Any) -> _t.Dict[str, _t.Any]:
                 first_name: _t.List[str] = attrs.field(factory=list)
         return Settings
 
+    # a user class whose annotations cannot be resolved (a forward reference to a name that does not
+    # exist): generating its hook RAISES, inside the converter's hook factory — a failing generation must
+    # leave nothing behind (the same error every time, on every converter)
+    @attrs.define
+    class UserBroken:
+        ident: "int"
+        other: "NoSuchTypeAnywhere" = None  # type: ignore[name-defined]  # noqa: F821
+
+    @attrs.define
+    class UserHolder:
+        position: _t.Optional[lsp.Position] = None
+        inner: _t.Optional[UserBroken] = None
+
     assert TwinA is not TwinB and TwinA.__qualname__ == TwinB.__qualname__ and TwinA.__module__ == TwinB.__module__
-    return {"UserThing": UserThing, "UserBox": UserBox, "TwinA": TwinA, "TwinB": TwinB, "LocalA": _local(0), "LocalB": _local(1)}
+    return {"UserThing": UserThing, "UserBox": UserBox, "TwinA": TwinA, "TwinB": TwinB, "LocalA": _local(0), "LocalB": _local(1),
+            "UserBroken": UserBroken, "UserHolder": UserHolder}
